@@ -36,6 +36,9 @@ type Subject interface {
 	Range(a, b []byte) Seq
 	Size() int
 	Tree() any // the art.Tree value (for the hook walker)
+	// Move stores, under key `to`, the very value object found under `from`
+	// (no new value is built); it reports whether `from` was found.
+	Move(from, to []byte) bool
 }
 
 // Kind describes one tree kind / key type instantiation.
@@ -103,6 +106,18 @@ func (a *adapter[K, V]) Search(k []byte) (int, bool) {
 	v, ok := a.t.Search(kk)
 	a.done(kk)
 	return a.back(v, ok), ok
+}
+func (a *adapter[K, V]) Move(from, to []byte) bool {
+	kf := a.to(from)
+	v, ok := a.t.Search(kf)
+	a.done(kf)
+	if !ok {
+		return false
+	}
+	kt := a.to(to)
+	a.t.Insert(kt, v)
+	a.done(kt)
+	return true
 }
 func (a *adapter[K, V]) Delete(k []byte) bool {
 	kk := a.to(k)
